@@ -33,20 +33,27 @@ TRUSTED_BASE = [
     "Python str.split/int/print semantics restricted to ASCII digits, blanks and lower-case letters (load model)",
 ]
 ASSUMPTIONS = [
-    "Hiso: is_isomorphic(g, h) is True exactly when g and h are isomorphic with matching element labels and atom classes; "
-    "every logged answer is validated on each run against networkx isomorphism on independently built graphs (finding key "
-    "Hiso:is_isomorphic-disagrees-with-networkx); the 5 s timeout (returns False) is runtime behaviour outside the model - "
-    "timed-out cases are discarded and counted",
-    "graphs are simple (duplicate-free unordered edge lists, endpoints are nodes); no edge is active",
-    "completeness is stated for products NOT isomorphic to the reactant (the code returns None by design for isomorphic "
-    "reactant/product with more than 3 atoms)",
-    "file-name mismatch between saving ({name}_BRs.txt) and reloading ({name}_bond_rearrangs.txt) is outside the "
-    "property (round trip is about one file)",
+    "Hiso_on: the isomorphism oracle is right (True exactly when isomorphic with matching element labels and atom classes) on "
+    "the finitely many questions the enumeration can ask for the given reactant/product; an end-to-end instance is proved "
+    "(Props.ex_Hiso_on / complete_instance).  mol_graphs.is_isomorphic answers False after a 5 s timeout: such answers are "
+    "NOT discarded - every logged answer (timed out or not) is validated on each run against networkx isomorphism on "
+    "independently built graphs (finding key Hiso:is_isomorphic-disagrees-with-networkx)",
+    "graphs are simple (duplicate-free unordered edge lists, endpoints are nodes); no edge is active (the `active` edge "
+    "attribute that is_isomorphic also matches on is not modelled; generated reactants have none)",
+    "completeness is PARTIAL w.r.t. the property text: proved for products not isomorphic to the reactant and for products "
+    "with <= 3 atoms; for identity reactions with > 3 atoms the code returns None by design (rearrs_complete_identity_refuted, "
+    "finding key incomplete|identity-reaction)",
+    "file-name mismatch between saving ({name}_BRs.txt) and the cache lookup ({name}_bond_rearrangs.txt): a second call "
+    "recomputes (checked equal: key second-call-differs); a pre-existing {name}_bond_rearrangs.txt is returned unchecked "
+    "(modelled: get_bond_rearrangs_cached; the soundness theorem is about the enumeration, not about a cache file)",
+    "loader model: ASCII text only; a negative integer token (legal for Python int) is outside the model's nat indices (NegIndex)",
 ]
 RULE = ("reactants: random molecules of 2-12 atoms incl. H (1-2 molecules, elements H B C N O F S Cl) with explicit bond "
         "lists, plus directed families: a centre at maximal valence in both breaking and both forming bonds (geminal double "
         "substitution, up to 3 molecules), bridged bicyclic skeletons with unequal bridges, atom-class labelled species "
-        "(identity SN2, labelled H exchange, sprinkled classes); edits: random and (thorough) exhaustive valence-respecting edits with <=2 breaking / <=2 forming bonds and "
+        "(identity SN2, labelled H exchange, sprinkled classes), reactants with an atom above its maximal valence, one reactant "
+        "object used twice with an in-place graph edit in between, reactants re-indexed by Species.reorder_atoms (nodes out of "
+        "order), directed rare bond-type patterns, identity reactions with and without >3 atoms, products as ProductComplex; edits: random and (thorough) exhaustive valence-respecting edits with <=2 breaking / <=2 forming bonds and "
         "net loss 0..2, plus out-of-premise edits (over-valent, 3 bonds, net gain, foreign element); product = edited "
         "graph under a random atom permutation with shuffled edge order; a case is non-trivial when the enumeration "
         "issues at least one candidate isomorphism query; distinct by (reactant, edit, permutation, skip flag)")
@@ -62,7 +69,15 @@ PINS = [("autode/bond_rearrangement.py", q) for q in (
        [("autode/mol_graphs.py", q) for q in (
            "get_bond_type_list", "get_fbonds", "is_isomorphic", "MolecularGraph.node_matcher", "find_cycles",
            "make_graph", "union")] + \
-       [("autode/atoms.py", "Atom.maximal_valance"), ("autode/species/complex.py", "Complex.__init__")]
+       [("autode/atoms.py", "Atom.maximal_valance"), ("autode/atoms.py", "Atom.is_metal"),
+        ("autode/species/complex.py", "Complex.__init__"), ("autode/species/complex.py", "Complex.atom_indexes"),
+        ("autode/species/complex.py", "Complex.n_molecules"), ("autode/species/species.py", "Species.reorder_atoms"),
+        # transitive dependencies (round 3): the decorator behind is_isomorphic, the whole graph class (an overriding
+        # copy/add_edge/remove_edge would change generate_rearranged_graph), the neighbour lists, node re-indexing
+        ("autode/utils.py", "_timeout_default"), ("autode/mol_graphs.py", "MolecularGraph"),
+        ("autode/mol_graphs.py", "reorder_nodes"), ("autode/geom.py", "get_neighbour_list")]
+# the module-level table atoms._max_valances is not a function: pinned by value for the elements the generators use
+PINNED_MAXVAL = {"H": 1, "B": 4, "C": 4, "N": 4, "O": 3, "F": 1, "S": 6, "Cl": 4, "Si": 4, "P": 6, "Br": 4, "I": 6}
 
 SLICE = ["C04/Model.v", "C04/Lemmas.v", "C04/Props.v", "C04/Corr.v"]
 PRE = ("From Coq Require Import String Ascii.\nFrom Coq Require Import Arith List Bool.\n"
@@ -211,6 +226,28 @@ def flat_classes(reac):
 def cls_code(c):
     """Coq code of an atom class: 0 = None"""
     return 0 if c is None else int(c) + 1
+
+
+def view(case):
+    """The reactant as get_bond_rearrangs sees it in the measured call, computed from the case description only:
+    (symbols, bonds, classes) after the optional in-place pre-edit (sequential use of one reactant object) and
+    the optional Species.reorder_atoms permutation.  case['bb'], case['fb'] and case['prod'] refer to THIS numbering."""
+    syms, edges = flat_reactant(case["reac"])
+    cls = flat_classes(case["reac"])
+    edges = [tuple(e) for e in norm_edges(edges)]
+    pre = case.get("pre")
+    if pre:
+        edges = [e for e in edges if e not in norm_edges(pre["bb"])] + norm_edges(pre["fb"])
+    perm = case.get("reorder")
+    if perm:
+        n = len(syms)
+        s2, c2 = [None] * n, [None] * n
+        for i in range(n):
+            s2[perm[i]] = syms[i]
+            c2[perm[i]] = cls[i]
+        syms, cls = s2, c2
+        edges = [(perm[a], perm[b]) for a, b in edges]
+    return syms, norm_edges(edges), cls
 
 
 def degrees(n, edges):
@@ -506,6 +543,141 @@ def gen_atom_class(rng):
     return None
 
 
+def reorder_case(rng, case):
+    """the same case with the reactant re-indexed by the public Species.reorder_atoms (the graph then keeps its
+    old node insertion order under new node names: nodes are NOT in ascending order)"""
+    syms, _ = flat_reactant(case["reac"])
+    n = len(syms)
+    perm = list(range(n))
+    for _ in range(5):
+        rng.shuffle(perm)
+        if perm != sorted(perm):
+            break
+    c = json.loads(json.dumps(case))
+    c["reorder"] = perm
+    c["bb"] = [[perm[a], perm[b]] for a, b in case["bb"]]
+    c["fb"] = [[perm[a], perm[b]] for a, b in case["fb"]]
+    c["family"] = case.get("family", "random") + "+reordered"
+    return c
+
+
+def gen_sequential(rng):
+    """one reactant OBJECT used twice: enumerate towards a first product, apply that (bond-count preserving)
+    edit to the reactant's graph in place, then enumerate the way back.  State kept between calls must not leak."""
+    for _ in range(80):
+        c0 = gen_case(rng, rng.choice([4, 5, 6, 7, 8, 9]), "premise")
+        if c0 is None or len(c0["bb"]) != len(c0["fb"]) or len(c0["bb"]) == 0:
+            continue
+        syms, edges = flat_reactant(c0["reac"])
+        cls = None
+        final = [e for e in norm_edges(edges) if e not in norm_edges(c0["bb"])] + norm_edges(c0["fb"])
+        back_bb, back_fb = c0["fb"], c0["bb"]
+        if not premise_ok(syms, final, back_bb, back_fb, MAXVAL):
+            continue
+        case = {"reac": c0["reac"], "kind": "premise", "family": "sequential",
+                "pre": {"bb": c0["bb"], "fb": c0["fb"], "prod": make_product(rng, syms, edges, c0["bb"], c0["fb"])},
+                "bb": [list(e) for e in back_bb], "fb": [list(e) for e in back_fb]}
+        case["prod"] = make_product(rng, syms, final, back_bb, back_fb)
+        return case
+    return None
+
+
+def gen_hypervalent(rng):
+    """a reactant with an atom ABOVE its maximal valence (bridging H, hypervalent halogen ...) and an edit at that
+    atom which does not push it any further: the max(maximal valence, degree before) half of the premise"""
+    for _ in range(80):
+        reac = gen_reactant(rng, rng.choice([5, 6, 7, 8, 9]))
+        syms, edges = flat_reactant(reac)
+        n = len(syms)
+        eset = norm_edges(edges)
+        deg = degrees(n, eset)
+        sat = [i for i in range(n) if deg[i] == MAXVAL[syms[i]] and deg[i] >= 1]
+        if not sat:
+            continue
+        a = rng.choice(sat)
+        others = [j for j in range(n) if j != a and (min(a, j), max(a, j)) not in eset and deg[j] < MAXVAL[syms[j]]]
+        if not others:
+            continue
+        b = rng.choice(others)
+        eset = eset + [(min(a, b), max(a, b))]          # a is now one above its maximal valence
+        one = {"mols": [(syms, [list(e) for e in eset])], "coords": reac["coords"]}
+        deg = degrees(n, eset)
+        non = [(i, j) for i in range(n) for j in range(i + 1, n) if (i, j) not in eset]
+        at_a = [e for e in eset if a in e]
+        non_a = [e for e in non if a in e]
+        for _try in range(60):
+            shape = rng.choice([(1, 1), (1, 1), (2, 2), (2, 1), (1, 0)])
+            if len(at_a) < 1 or len(eset) < shape[0] or len(non) < shape[1] or (shape[1] and not non_a):
+                break
+            bb = [rng.choice(at_a)] + rng.sample([e for e in eset if e not in at_a] or eset, shape[0] - 1) if shape[0] > 1 else [rng.choice(at_a)]
+            fb = ([rng.choice(non_a)] + rng.sample(non, shape[1] - 1)) if shape[1] else []
+            if len(set(bb)) != len(bb) or len(set(fb)) != len(fb):
+                continue
+            if premise_ok(syms, eset, bb, fb, MAXVAL):
+                case = {"reac": one, "bb": [list(e) for e in bb], "fb": [list(e) for e in fb], "kind": "premise",
+                        "family": "hypervalent"}
+                case["prod"] = make_product(rng, syms, eset, bb, fb)
+                return case
+    return None
+
+
+def gen_identity(rng, small):
+    """identity substitutions / exchanges WITHOUT atom classes: X + R-X -> X-R + X.  small: 3 atoms in total (the
+    enumeration runs); otherwise > 3 atoms (the code returns None by design: key incomplete|identity-reaction)"""
+    for _ in range(50):
+        x = rng.choice(["H", "Cl", "F", "Br", "O", "I"])
+        if small:
+            centre = rng.choice(["H", "C", "O", "N", "Cl", "B"])
+            mols = [([x], []), ([centre, x], [(0, 1)])]
+        else:
+            centre = rng.choice(["C", "C", "Si", "N", "B"])
+            syms, bonds = [centre, x], [(0, 1)]
+            for _k in range(rng.randint(1, MAXVAL[centre] - 1)):
+                syms.append(rng.choice(["H", "H", "H", "F"]))
+                bonds.append((0, len(syms) - 1))
+            mols = [([x], []), (syms, bonds)]
+        case = _finish_case(rng, mols, [(1, 2)], [(0, 1)], "identity3" if small else "identity")
+        if case is not None:
+            return case
+    return None
+
+
+RARE_PATTERNS = ["(1,2)(1,0)", "(2,1)(0,1)", "(2,2)", "(1,1)(1,1)", "(2,0)(0,2)", "(1,0)(1,0)(0,2)", "(2,0)(0,1)(0,1)",
+                 "(2,1)", "(1,1)(1,0)(0,1)", "(1,1)(1,0)"]
+
+
+def gen_pattern(rng, target):
+    """a premise edit whose breaking / forming bonds distribute over the bond types as `target` (type_pattern): every
+    branch of the get_fbonds_bbonds_* case analysis is hit on every run, not by seed luck"""
+    pairs = [tuple(int(v) for v in t.strip("()").split(",")) for t in target.replace(")(", ")|(").split("|")]
+    nb, nf = sum(a for a, _ in pairs), sum(b for _, b in pairs)
+    for _ in range(400):
+        reac = gen_reactant(rng, rng.choice([5, 6, 7, 8, 9]))
+        syms, edges = flat_reactant(reac)
+        n = len(syms)
+        eset = norm_edges(edges)
+        non = [(i, j) for i in range(n) for j in range(i + 1, n) if (i, j) not in eset]
+        if len(eset) < nb or len(non) < nf:
+            continue
+        for _try in range(40):
+            bb, fb = rng.sample(eset, nb), rng.sample(non, nf)
+            if type_pattern(syms, bb, fb) == target and premise_ok(syms, eset, bb, fb, MAXVAL):
+                # the product must NOT be reachable by the function that is tried first (1b1f before 2b2f, 1b before
+                # 2b1f), otherwise the targeted branch never runs
+                new = [e for e in eset if e not in norm_edges(bb)] + norm_edges(fb)
+                hp = nx_graph(syms, new)
+                small_b, small_f = nb - 1, nf - 1
+                if nb == 2 and any(nx_iso(nx_graph(syms, [e for e in eset if e not in b1] + list(f1)), hp)
+                                   for b1 in itertools.combinations(eset, small_b)
+                                   for f1 in itertools.combinations(non, small_f)):
+                    continue
+                case = {"reac": reac, "bb": [list(e) for e in bb], "fb": [list(e) for e in fb], "kind": "premise",
+                        "family": "pattern"}
+                case["prod"] = make_product(rng, syms, edges, bb, fb)
+                return case
+    return None
+
+
 # ============================================================================ implementation runner (worker side)
 class _QueryCap(Exception):
     pass
@@ -527,12 +699,43 @@ def _build(case):
         mols.append(m)
         off += len(syms)
     reactant = mols[0] if len(mols) == 1 and not case.get("force_complex") else ReactantComplex(*mols, name="rc")
-    p = case["prod"]
-    pcls = p.get("classes") or [None] * len(p["syms"])
-    patoms = [Atom(s, *[round(0.37 * i + 0.11 * j * j, 3) for j in range(3)], atom_class=pcls[i])
-              for i, s in enumerate(p["syms"])]
-    product = ade.Species(name="p", atoms=patoms, charge=0, mult=1)
-    make_graph(product, bond_list=[tuple(b) for b in p["bonds"]])
+
+    def mk_product(p, name):
+        pcls = p.get("classes") or [None] * len(p["syms"])
+        patoms = [Atom(s, *[round(0.37 * i + 0.11 * j * j, 3) for j in range(3)], atom_class=pcls[i])
+                  for i, s in enumerate(p["syms"])]
+        if p.get("as_complex"):
+            # the production type for dissociations / substitutions: one Species per connected component
+            import networkx as nx
+            from autode.species.complex import ProductComplex
+            g = nx.Graph()
+            g.add_nodes_from(range(len(patoms)))
+            g.add_edges_from([tuple(b) for b in p["bonds"]])
+            parts = []
+            for k, comp in enumerate(sorted(nx.connected_components(g), key=min)):
+                idx = sorted(comp)
+                sp = ade.Species(name=f"{name}{k}", atoms=[patoms[i] for i in idx], charge=0, mult=1)
+                make_graph(sp, bond_list=[(idx.index(a), idx.index(b)) for a, b in p["bonds"] if a in comp])
+                parts.append(sp)
+            return ProductComplex(*parts, name=name)
+        prod = ade.Species(name=name, atoms=patoms, charge=0, mult=1)
+        make_graph(prod, bond_list=[tuple(b) for b in p["bonds"]])
+        return prod
+
+    pre = case.get("pre")
+    if pre:
+        # sequential use of ONE reactant object: enumerate against a first product, then apply that edit to the
+        # reactant's graph in place (stepping along a mechanism) before the measured call
+        from autode import bond_rearrangement as br
+        br.get_bond_rearrangs(reactant, mk_product(pre["prod"], "w"), name="warm", save=False)
+        for a, b in pre["fb"]:
+            reactant.graph.add_edge(a, b, pi=False, active=False)
+        for a, b in pre["bb"]:
+            reactant.graph.remove_edge(a, b)
+    perm = case.get("reorder")
+    if perm:
+        reactant.reorder_atoms({i: perm[i] for i in range(len(perm))})
+    product = mk_product(case["prod"], "p")
     return reactant, product
 
 
@@ -555,9 +758,10 @@ def run_impl(case, workdir, cap):
         res["labels"] = labels
         res["mv"] = [ade.Atom(s).maximal_valance for s in labels]
         res["r_nodes"] = list(reactant.graph.nodes)
-        res["r_labs"] = [labels.index(reactant.graph.nodes[i]["atom_label"]) for i in reactant.graph.nodes]
+        res["r_labs"] = [labels.index(reactant.graph.nodes[i]["atom_label"]) for i in sorted(reactant.graph.nodes)]
         res["r_atom_labs"] = [labels.index(a.label) for a in reactant.atoms]
-        res["r_cls"] = [cls_code(reactant.graph.nodes[i].get("atom_class")) for i in reactant.graph.nodes]
+        res["r_atom_syms"] = [a.label for a in reactant.atoms]
+        res["r_cls"] = [cls_code(reactant.graph.nodes[i].get("atom_class")) for i in sorted(reactant.graph.nodes)]
         res["r_atom_cls"] = [cls_code(a.atom_class) for a in reactant.atoms]
         res["r_edges"] = [list(e) for e in reactant.graph.edges]
         res["p_nodes"] = list(product.graph.nodes)
@@ -615,6 +819,16 @@ def run_impl(case, workdir, cap):
                             x.fbonds == y.fbonds and x.bbonds == y.bbonds for x, y in zip(back, out))
                         run["reload"] = [([list(e) for e in b.fbonds], [list(e) for e in b.bbonds]) for b in back]
                     run["files"] = sorted(os.listdir("."))
+                    if len(log) <= 40:
+                        # same name again, with whatever the first call left on disk: must give equal objects
+                        br.is_isomorphic, br.strip_equiv_bond_rearrs, br.prune_small_ring_rearrs = orig_iso, orig_strip, orig_prune
+                        try:
+                            again = br.get_bond_rearrangs(reactant, product, name=name, save=True)
+                            run["second_call_equal"] = again is not None and again == out
+                            run["second_call"] = None if again is None else [([list(e) for e in b.fbonds], [list(e) for e in b.bbonds]) for b in again]
+                        except Exception as e:  # noqa
+                            run["second_call_equal"] = False
+                            run["second_call"] = f"{type(e).__name__}: {e}"
             except _QueryCap:
                 run["cap"] = True
             except KeyError as e:
@@ -683,8 +897,7 @@ def nx_iso(g, h):
 
 def check_sound(case, outcome):
     """Every returned rearrangement: bbonds in E_r, fbonds not in E_r, applied graph isomorphic to product."""
-    syms, edges = flat_reactant(case["reac"])
-    rcls = flat_classes(case["reac"])
+    syms, edges, rcls = view(case)
     eset = set(norm_edges(edges))
     hp = nx_graph(case["prod"]["syms"], case["prod"]["bonds"], case["prod"].get("classes"))
     problems = []
@@ -714,8 +927,8 @@ def term_for(case, res, run0, run1):
         pre_out = pre
         nlt = "[" + ";".join(f"({c_rearr(b)},{k})" for b, k in zip(pre, run0["nl_class"])) + "]"
         ringt = "[" + ";".join(f"({c_rearr(b)},{c_nats(r)})" for b, r in zip(pre, run0["rings"])) + "]"
-    common = (f"{c_nats(res['r_labs'])} {c_nats(res['r_cls'])} {c_edges(res['r_edges'])} "
-              f"{c_nats(res['p_labs'])} {c_nats(res['p_cls'])} {c_edges(res['p_edges'])} "
+    common = (f"{c_nats(res['r_nodes'])} {c_nats(res['r_labs'])} {c_nats(res['r_cls'])} {c_edges(res['r_edges'])} "
+              f"{c_nats(res['p_nodes'])} {c_nats(res['p_labs'])} {c_nats(res['p_cls'])} {c_edges(res['p_edges'])} "
               f"{c_nats(res['mv'])} {tbl} {nlt} {ringt}")
     return f"check_case {common} {c_outcome(pre_out)} {c_outcome(run0['outcome'])} {c_outcome(run1['outcome'])}"
 
@@ -734,10 +947,13 @@ def analyse(ctx, idx, case, res, terms, descr, stats, findings):
         stats["cap_discarded"] += 1
         ctx.hist(stream, "discarded:query-cap")
         return
-    if any(q["t"] >= ISO_TIMEOUT_S and not q["ans"] for q in r0["log"] + r1["log"]):
-        stats["timeout_discarded"] += 1
-        ctx.hist(stream, "discarded:iso-timeout")
-        return
+    n_to = sum(1 for q in r0["log"] + r1["log"] if q["t"] >= ISO_TIMEOUT_S and not q["ans"])
+    if n_to:
+        # a timed-out is_isomorphic answers False; the case is KEPT: a wrong False is reported by the Hiso
+        # validation below (and, if it costs the only rearrangement, by `incomplete`)
+        stats["timeout_discarded"] += 0
+        stats["iso_timeouts"] = stats.get("iso_timeouts", 0) + n_to
+        ctx.hist(stream, "iso-timeout-answers")
     # the wrapped calls were what the model assumes
     for r in (r0, r1):
         if any((not q["second_is_product"]) or q["extra_args"] or (not q["nodes_ok"]) for q in r["log"]):
@@ -749,17 +965,27 @@ def analyse(ctx, idx, case, res, terms, descr, stats, findings):
     if [(q["edges"], q["ans"]) for q in r0["log"]] != [(q["edges"], q["ans"]) for q in r1["log"]]:
         fail("nondeterministic", "the sequence of isomorphism queries differs between two runs of the same input")
         return
-    if res["r_nodes"] != list(range(len(res["r_nodes"]))) or res["p_nodes"] != list(range(len(res["p_nodes"]))) \
-            or res["r_labs"] != res["r_atom_labs"] or res["r_cls"] != res["r_atom_cls"]:
-        fail("node-order", "graph nodes are not 0..n-1 in atom order")
+    syms, edges, rcls = view(case)
+    n = len(syms)
+    if sorted(res["r_nodes"]) != list(range(n)) or res["p_nodes"] != list(range(len(res["p_nodes"]))) \
+            or res["r_labs"] != res["r_atom_labs"] or res["r_cls"] != res["r_atom_cls"] \
+            or res["r_atom_syms"] != syms or res["r_atom_cls"] != [cls_code(c) for c in rcls] \
+            or norm_edges(res["r_edges"]) != norm_edges(edges):
+        fail("node-order", "the reactant handed to get_bond_rearrangs is not the described one (atoms / node names / "
+             "node attributes / bonds after the optional in-place edit and reorder_atoms)")
         return
-    syms, edges = flat_reactant(case["reac"])
-    rcls = flat_classes(case["reac"])
+    if case.get("reorder"):
+        ctx.hist(stream, "reactant-nodes-" + ("in-order" if res["r_nodes"] == list(range(n)) else "out-of-order"))
     nq = len(r0["log"])
     ctx.hist(stream, "family=" + case.get("family", "random"))
     ctx.hist(stream, f"atoms={len(syms)}")
     ctx.hist(stream, f"edit={len(case['bb'])}b{len(case['fb'])}f")
     ctx.hist(stream, "mols=%d" % len(case["reac"]["mols"]))
+    d0 = degrees(n, edges)
+    if any(d0[i] > MAXVAL.get(syms[i], 6) for i in range(n)):
+        ctx.hist(stream, "reactant-has-atom-above-maximal-valence")
+    if case["prod"].get("as_complex"):
+        ctx.hist(stream, "product-is-ProductComplex")
     if case["kind"] == "premise":
         ctx.hist(stream, "type-pattern(nb,nf per bond type)=" + type_pattern(syms, case["bb"], case["fb"]))
     # Hiso, the premise of the theorems: every logged answer of is_isomorphic(graph, product.graph) is validated
@@ -799,11 +1025,24 @@ def analyse(ctx, idx, case, res, terms, descr, stats, findings):
                 fail("prune-skipped", f"{len(out)} rearrangements returned without the pruning step ({tag})")
             if not r["skip"] and r["prune_in"] is not None and r["prune_in"] != r["prune_out"]:
                 fail("prune-when-disabled", "prune_small_ring_rearrs removed entries although skip_small_ring_tss is False")
-        # completeness: premise holds, product not isomorphic to the reactant -> non-empty list
-        if case["kind"] == "premise" and not r_iso_p:
-            if not isinstance(out, list) or len(out) == 0:
-                fail("incomplete", f"edit bbonds={case['bb']} fbonds={case['fb']} satisfies the premise and the product is not "
-                     f"isomorphic to the reactant, but get_bond_rearrangs returned {out!r} ({tag})")
+        # completeness.  The property: whenever the product differs from the reactant by such an edit the
+        # enumeration is non-empty.  Proved (rearrs_complete_partial) when the product is not isomorphic to the
+        # reactant or has <= 3 atoms; for an identity reaction with > 3 atoms the code returns None by design
+        # (bond_rearrangement.py:39-45, rearrs_complete_identity_refuted): reported under its own narrow key.
+        if case["kind"] == "premise" and len(case["bb"]) > 0 and out != "Exception":
+            empty = not isinstance(out, list) or len(out) == 0
+            if (not r_iso_p) or n <= 3:
+                if empty:
+                    fail("incomplete", f"edit bbonds={case['bb']} fbonds={case['fb']} satisfies the premise"
+                         + (" and the product is not isomorphic to the reactant" if not r_iso_p else " (3-atom identity reaction)")
+                         + f", but get_bond_rearrangs returned {out!r} ({tag})")
+            elif empty:
+                fail("incomplete|identity-reaction", f"identity reaction (product isomorphic to the reactant, {n} > 3 atoms): edit "
+                     f"bbonds={case['bb']} fbonds={case['fb']} satisfies the premise, get_bond_rearrangs returned {out!r} "
+                     f"(early return bond_rearrangement.py:39-45)")
+        if isinstance(out, list) and r.get("second_call_equal") is False:
+            fail("second-call-differs", f"calling get_bond_rearrangs again with the same name (files of the first call present) "
+                 f"gave {r.get('second_call')!r}, first call {out!r} ({tag})")
     if r0["outcome"] == "Exception" or r1["outcome"] == "Exception":
         return
     terms.append(term_for(case, res, r0, r1))
@@ -819,7 +1058,7 @@ def analyse(ctx, idx, case, res, terms, descr, stats, findings):
         if isinstance(r1["outcome"], list) and len(r1["outcome"]) < n_out:
             ctx.hist(stream, "small-ring-prune-removed-some")
     key = (json.dumps(case["reac"]["mols"]), json.dumps(case["bb"]), json.dumps(case["fb"]), json.dumps(case["prod"]["perm"]),
-           json.dumps(case["reac"].get("classes")))
+           json.dumps(case["reac"].get("classes")), json.dumps(case.get("reorder")), bool(case.get("pre")))
     ctx.count(stream, key, nontrivial=(nq > 1),
               sample={"reactant": case["reac"]["mols"], "bbonds": case["bb"], "fbonds": case["fb"],
                       "result": r0["outcome"], "n_iso_queries": nq})
@@ -877,7 +1116,7 @@ def prune_stream(ctx, rng, n_cases, terms, descr, findings):
                                      {"kind": "prune", "reac": reac, "brs": brs, "skip": skip}))
                 nlt = "[" + ";".join(f"({c_rearr(b)},{c})" for b, c in zip(brs, nlc)) + "]"
                 ringt = "[" + ";".join(f"({c_rearr(b)},{c_nats(r)})" for b, r in zip(brs, rings)) + "]"
-                terms.append(f"check_prune {c_nats(labs)} {c_edges(r_edges)} {c_rearrs(brs)} {nlt} {ringt} {coq_bool(skip)} {c_rearrs(out)}")
+                terms.append(f"check_prune {c_nats(list(range(n)))} {c_nats(labs)} {c_edges(r_edges)} {c_rearrs(brs)} {nlt} {ringt} {coq_bool(skip)} {c_rearrs(out)}")
                 descr.append({"kind": "prune", "reac": reac, "brs": brs, "skip": skip, "impl": out})
                 ctx.count("prune", (json.dumps(reac["mols"]), json.dumps(brs), skip), nontrivial=(len(out) < len(brs)),
                           sample={"brs": brs, "rings": rings, "nl_class": nlc, "skip": skip, "kept": out})
@@ -888,7 +1127,7 @@ def prune_stream(ctx, rng, n_cases, terms, descr, findings):
 
 def codes(s):
     """Coq string literal of an ASCII text (raw newlines / tabs are allowed inside Coq strings)"""
-    assert all((32 <= ord(c) < 127) or c in "\n\t" for c in s), repr(s)
+    assert all((32 <= ord(c) < 127) or c in "\n\t\r" for c in s), repr(s)
     return '"' + s.replace('"', '""') + '"%string'
 
 
@@ -916,29 +1155,72 @@ def saveload_stream(ctx, rng, n_cases, saved_from_runs, terms, descr, findings):
         got = [(list(b.fbonds), list(b.bbonds)) for b in back]
         if not (back == objs and got == [(list(f), list(b)) for f, b in brs]):
             findings.append(("reload-differs", f"saved {brs} reloaded as {got}", {"kind": "saveload", "brs": brs}))
-        terms.append(f"(check_save {c_rearrs(brs)} {codes(text)} && check_load {codes(text)} (Some {c_rearrs(got)}))")
+        terms.append(f"(check_save {c_rearrs(brs)} {codes(text)} && check_load {codes(text)} (inl {c_rearrs(got)}))")
         descr.append({"kind": "save+load", "brs": brs, "text": text})
         ctx.count("save-load", ("rt", json.dumps(brs)), nontrivial=len(brs) > 0, sample={"brs": brs, "text": text})
-    # malformed / foreign texts: the loader against the model
+    # malformed / foreign texts: the loader against the model; and the same texts as a pre-existing
+    # {name}_bond_rearrangs.txt, which get_bond_rearrangs returns instead of enumerating (bond_rearrangement.py:36-37)
     # digit pieces end in white space so that digit runs stay short (the model parses into unary nat)
     alphabet = ["fbonds", "bbonds", "end", "1 ", "22 ", "0\n", "007 ", " ", " ", "\n", "\n", "x", "fb", "ends", "\t", "3 4\n", "5 6\n",
-                "12\t7\n", "fbonds\n", "bbonds\n", "end\n"]
+                "12\t7\n", "fbonds\n", "bbonds\n", "end\n",
+                "\r", "\r\n", "1\r2\n", "+1 ", "+", "-3 ", "-0 ", "1_0 ", "_1 ", "1__0 ", "1_ ", "+1_2\n", "4 -5\n"]
+
+    def expect_of(call):
+        try:
+            back = call()
+            pairs = [(list(b.fbonds), list(b.bbonds)) for b in back]
+            if any(x < 0 for f, b in pairs for e in f + b for x in e):
+                return "(inr NegIndex)", "negative"
+            return f"(inl {c_rearrs(pairs)})", "parsed"
+        except ValueError:
+            return "(inr ValueErr)", "ValueError"
+
+    import autode as ade
+    from autode.mol_graphs import make_graph
+    h2 = ade.Species(name="h2", atoms=[ade.Atom("H"), ade.Atom("H", x=0.7)], charge=0, mult=1)
+    make_graph(h2, bond_list=[(0, 1)])
+    hh = ade.Species(name="hh", atoms=[ade.Atom("H"), ade.Atom("H", x=3.7)], charge=0, mult=1)
+    make_graph(hh, bond_list=[])
+    cwd = os.getcwd()
     for k in range(n_cases):
         text = "".join(rng.choice(alphabet) for _ in range(rng.randint(0, 14)))
-        open(fn, "w").write(text)
+        with open(fn, "w", newline="") as f:
+            f.write(text)
         try:
-            back = br.get_bond_rearrangs_from_file(fn)
-            exp = f"(Some {c_rearrs([(list(b.fbonds), list(b.bbonds)) for b in back])})"
-        except ValueError:
-            exp = "None"
+            exp, cls = expect_of(lambda: br.get_bond_rearrangs_from_file(fn))
         except Exception as e:  # noqa
             findings.append(("load-raises", f"get_bond_rearrangs_from_file raised {type(e).__name__} on {text!r}",
                              {"kind": "load", "text": text}))
             continue
+        if cls != "negative" and "-" in text:
+            # the model stops at the first negative index (outside its nat domain); Python goes on and may raise
+            # later or drop the unfinished block
+            ctx.hist("save-load", "skipped:negative-index-not-in-result")
+            continue
         terms.append(f"check_load {codes(text)} {exp}")
         descr.append({"kind": "load-malformed", "text": text, "impl": exp})
         ctx.count("save-load", ("mal", text), nontrivial=True)
-        ctx.hist("save-load", "malformed:" + ("ValueError" if exp == "None" else "parsed"))
+        ctx.hist("save-load", "malformed:" + cls)
+        if k % 3 == 0:
+            try:
+                os.chdir(wd)
+                with open("cached_bond_rearrangs.txt", "w", newline="") as f:
+                    f.write(text)
+                exp2, cls2 = expect_of(lambda: br.get_bond_rearrangs(h2, hh, name="cached", save=False))
+                if cls2 != "negative" and "-" in text:
+                    continue
+            except Exception as e:  # noqa
+                findings.append(("raises", f"get_bond_rearrangs with a pre-existing cached_bond_rearrangs.txt raised "
+                                 f"{type(e).__name__} on {text!r}", {"kind": "load", "text": text}))
+                continue
+            finally:
+                if os.path.exists(os.path.join(wd, "cached_bond_rearrangs.txt")):
+                    os.remove(os.path.join(wd, "cached_bond_rearrangs.txt"))
+                os.chdir(cwd)
+            terms.append(f"check_cached {codes(text)} {exp2}")
+            descr.append({"kind": "cached-file", "text": text, "impl": exp2})
+            ctx.count("save-load", ("cached", text), nontrivial=True)
+            ctx.hist("save-load", "cached-file:" + cls2)
     shutil.rmtree(wd, ignore_errors=True)
 
 
@@ -970,6 +1252,19 @@ def build_cases(ctx):
             c = gen(rng)
             if c is not None:
                 cases.append(c)
+    for gen, nq, nt in ((gen_sequential, 18, 150), (gen_hypervalent, 22, 180),
+                        (lambda r: gen_identity(r, True), 6, 40), (lambda r: gen_identity(r, False), 4, 30)):
+        for i in range(nq if quick else nt):
+            c = gen(rng)
+            if c is not None:
+                cases.append(c)
+    for target in RARE_PATTERNS:
+        # the two patterns served by a single sub-loop of get_fbonds_bbonds_2b2f get more cases: their products
+        # are often also reachable through a sibling sub-loop
+        for i in range((6 if target in ("(1,2)(1,0)", "(2,1)(0,1)") else 2) if quick else 12):
+            c = gen_pattern(rng, target)
+            if c is not None:
+                cases.append(c)
     # exhaustive edits of a few small reactants (all valence-respecting edits with <=2/<=2 bonds)
     n_exh = 2 if quick else 10
     lim = 40 if quick else 400
@@ -987,7 +1282,11 @@ def build_cases(ctx):
     for c in cases:
         if rng.random() < 0.3:
             c["force_complex"] = True
-    return cases
+        if rng.random() < 0.4:
+            c["prod"]["as_complex"] = True
+    # every fifth case also with the reactant re-indexed through Species.reorder_atoms
+    extra = [reorder_case(rng, c) for k, c in enumerate(cases) if k % 5 == 0 and not c.get("pre")]
+    return cases + extra
 
 
 MAXVAL = {}
@@ -1021,7 +1320,19 @@ def run(ctx):
     sys.path.insert(0, REPO)
     load_maxval()
     pins_changed = source_pins(ctx.pid, PINS)
-    ctx.cov["source_pins"] = {"pinned": len(PINS), "changed": pins_changed}
+    # a pin that was added to PINS but is not yet in the committed pins.json is not a CHANGE of the source: it is
+    # listed as unrecorded until the lead runs tools/update_pins.py
+    try:
+        recorded = json.load(open(os.path.join(VERIF, "coq", "C04", "pins.json")))
+    except Exception:  # noqa
+        recorded = {}
+    unrecorded = [k for k in pins_changed if k.split(" (")[0] not in recorded]
+    pins_changed = [k for k in pins_changed if k not in unrecorded]
+    pins_changed += [f"autode/atoms.py::_max_valances[{el}]={MAXVAL.get(el)} (model/generators written for {v})"
+                     for el, v in sorted(PINNED_MAXVAL.items()) if MAXVAL.get(el) != v]
+    ctx.cov["source_pins"] = {"pinned": len(PINS) + len(PINNED_MAXVAL), "changed": pins_changed, "unrecorded": unrecorded}
+    if unrecorded:
+        ctx.log("pins awaiting tools/update_pins.py:", ", ".join(unrecorded))
     if pins_changed:
         ctx.log("source pins changed:", ", ".join(pins_changed))
     # 1. proofs
@@ -1050,8 +1361,11 @@ def run(ctx):
     seen = {}
     for key, what, rep in findings:
         seen[key] = seen.get(key, 0) + 1
-        if seen[key] <= 2:
+        if seen[key] <= (1 if key == "incomplete|identity-reaction" else 2):
             ctx.finding(key, what, rep)
+    ctx.cov["finding_counts"] = seen
+    if seen:
+        ctx.log("finding keys:", json.dumps(seen))
     # 3. correspondence
     corr_bad, corr_err = [], None
     if proofs_ok:
@@ -1063,16 +1377,21 @@ def run(ctx):
         ctx.cov["disagreements"] = len(corr_bad)
     # 4. decide
     if not proofs_ok:
-        ctx.proof_failure(info, found_any_input=bool(findings))
+        ctx.proof_failure(info, found_any_input=bool([f for f in findings if f[0] != "incomplete|identity-reaction"]))
+    # a correspondence disagreement is only "explained" by a concrete finding of another kind than the
+    # design-level identity-reaction one (which is present on every run and touches no model behaviour)
+    explaining = [f for f in findings if f[0] != "incomplete|identity-reaction"]
     if corr_bad or corr_err:
-        if not findings:
+        for d, t in corr_bad[:3]:
+            ctx.log("disagreement:", json.dumps(d)[:400])
+        if not explaining:
             ctx.violation("model and implementation disagree (correspondence) and no property-level oracle failed on the "
                           "implementation", {"kind": "correspondence", "first": [d for d, _ in corr_bad[:3]],
                                              "coq_terms": [t for _, t in corr_bad[:2]], "coq_error": corr_err},
                           found_input=False)
         else:
             ctx.log("correspondence disagreements explained by the implementation-level findings above")
-    if pins_changed and not findings and not (corr_bad or corr_err) and proofs_ok:
+    if pins_changed and not explaining and not (corr_bad or corr_err) and proofs_ok:
         ctx.violation("hand model no longer pinned to the source: " + ", ".join(pins_changed),
                       {"kind": "source-pin", "changed": pins_changed}, found_input=False)
 
@@ -1100,24 +1419,26 @@ def replay(ctx, obj):
 
 MANIFEST = {
     "technique": "Coq proof over a hand model of the enumeration + per-run model/implementation correspondence with the "
-                 "implementation's own isomorphism answers as the model's oracle",
+                 "implementation's own isomorphism answers as the model's oracle; source pins on every function the model was written from",
     "level_text": ("Machine-checked theorems (coq/C04/Props.v, all closed under the global context) about an executable model "
                    "of get_bond_rearrangs for ALL labelled simple graphs: rearrs_sound (every returned rearrangement breaks "
-                   "only present bonds, forms only absent ones and yields a graph isomorphic to the product; the result is never "
-                   "an empty list), rearrs_complete (product not isomorphic to the reactant and some edit with <=2 breaking, "
-                   "<=2 forming bonds, net loss 0..2, no atom pushed beyond its maximal valence reaches the product => a "
-                   "non-empty list is returned; every one of the 1+2+2+5+15 bond-type patterns of the five "
-                   "get_fbonds_bbonds_* functions is proved, nothing is left partial), strip_equiv_nonempty / "
-                   "prune_small_rings_nonempty / pruning_keeps_one (for every oracle assignment pruning only drops entries "
-                   "and never the last one), save_load_roundtrip (load (save brs) = brs for the text format).  The theorems "
-                   "assume Hiso: the isomorphism oracle decides label-preserving isomorphism."),
-    "level_note": ("Trusted: Coq kernel + vm_compute; the hand model coq/C04/Model.v, tied on every run by executing model and "
-                   "implementation on the same generated cases with the model's iso_b being exactly the logged answers of the "
-                   "wrapped is_isomorphic (compared: list before pruning, final list with skip_small_ring_tss False/True, exact "
-                   "sequence of isomorphism queries, saved text, reloaded objects; plus pruning and load on hand-made / malformed "
-                   "inputs); networkx GraphMatcher / cycle_basis and the geometry-based neighbour lists are oracles; the 5 s "
-                   "isomorphism timeout is outside the model (timed-out cases discarded and counted; bulk cases run in daemonic "
-                   "workers where the decorator calls in-process, a few in the fork-per-call path); completeness is for products "
-                   "not isomorphic to the reactant (the code returns None by design otherwise); the {name}_BRs.txt vs "
-                   "{name}_bond_rearrangs.txt file-name mismatch is outside the property and only noted."),
+                   "only present bonds, forms only absent ones and yields a graph isomorphic - elements and atom classes - to the "
+                   "product; the result is never an empty list), rearrs_complete_partial (some edit with <=2 breaking, <=2 forming "
+                   "bonds, net loss 0..2, no atom pushed beyond max(maximal valence, its degree) reaches the product, and the "
+                   "product is not isomorphic to the reactant or has <= 3 atoms => a non-empty list; all 1+2+2+5+15 bond-type "
+                   "patterns proved), rearrs_complete_identity_refuted (the clause without that exemption is FALSE of the model and "
+                   "the code: Cl + CH3Cl -> ClCH3 + Cl returns None), strip_equiv_nonempty / prune_small_rings_nonempty / "
+                   "pruning_keeps_one (for every oracle assignment pruning only drops entries, never the last), "
+                   "save_load_roundtrip (load (save brs) = brs).  The oracle hypothesis is local (Hiso_on: right on the finitely "
+                   "many candidate questions) and an end-to-end instance is proved (complete_instance)."),
+    "level_note": ("PARTIAL: completeness for identity reactions with > 3 atoms is refuted, not proved (finding "
+                   "incomplete|identity-reaction, design decision pinned by the repo's own test). Trusted: Coq kernel + vm_compute; "
+                   "the hand model coq/C04/Model.v, tied by 36 source pins (+ a value pin of the maximal-valence table) and on every "
+                   "run by executing model and implementation on the same generated cases with the model's iso_b being exactly the "
+                   "logged answers of the wrapped is_isomorphic (compared: list before pruning, final list with skip_small_ring_tss "
+                   "False/True, exact query sequence, saved text, reloaded objects, loader incl. universal newlines / signs / "
+                   "underscores, the pre-existing-cache-file short cut); Hiso_on is an assumption about networkx/is_isomorphic, "
+                   "validated per run against networkx for every answer given (incl. timed-out ones; none occurs at <= 12 atoms; "
+                   "bulk cases run in daemonic pool workers where the timeout decorator calls in-process, a few via the fork path). "
+                   "Exercised only by generation, not proved: reactants up to 12 atoms, <= 250 (quick) isomorphism queries per case."),
 }
